@@ -191,8 +191,11 @@ def run_witness_session(steps, frontend="wsgi", prefix="/", backend="tree", prin
         for st in steps:
             args = list(st[1:])
             kwargs = args.pop() if args and isinstance(args[-1], dict) else {}
-            args = [gamma.model_body(int(a.split(":")[1]))[0] if isinstance(a, str) and a.startswith("@model:") else a
-                    for a in args]
+            args = [gamma.model_body(int(a.split(":")[1]))[0] if isinstance(a, str) and a.startswith("@model:") else
+                    (b"opaque bytes \xe2\x98\x83 " * 600)[:int(a.split(":")[1])] if isinstance(a, str) and a.startswith("@bytes:")
+                    else a for a in args]
+            if st[0] == "multiget":
+                args[1] = [tuple(x) for x in args[1]]
             if st[0] == "propupdate":
                 args[1] = [tuple(x) for x in args[1]]
             getattr(s, st[0])(*args, **kwargs)
